@@ -1,6 +1,9 @@
 /-
 Phase 6c, editors: `build_array` (generic over `IntoIterator`: translated for a list of byte slices) against
-`Fn.buildArray` / `Fn.partsOf` / `Fn.partOf` of Functions/Edit.lean.
+`Fn.buildArray` / `Fn.partsOf` / `Fn.partOf` of Functions/Edit.lean.  The body lives in the private
+`build_array_into`; the public `build_array` is the rollback wrapper around it (truncates the caller's buffer when an
+item is rejected), translated as the callee's outcome: `build_array_into_agrees`, `build_array_eq_into`,
+`build_array_agrees`.
 -/
 import JsonbModel.Proofs.TranslatedAgreeI15
 
@@ -38,15 +41,15 @@ theorem patch_run {ρ : Type} (idx : Nat) (body : (Int × Int) → Bytes → Ctl
     congr 1
 
 theorem ba_loop2_step (idx k : Nat) (b : UInt8) (buf : Bytes) (h : idx + k < buf.length) (hl : buf.length < 18446744073709551616) :
-    Tr.build_array.loop2 (idx : Int) ((k : Int), ((b.toNat : Nat) : Int)) buf = Ctl.val (.next (buf.set (idx + k) b)) := by
-  unfold Tr.build_array.loop2
+    Tr.build_array_into.loop2 (idx : Int) ((k : Int), ((b.toNat : Nat) : Int)) buf = Ctl.val (.next (buf.set (idx + k) b)) := by
+  unfold Tr.build_array_into.loop2
   dsimp only
   simp only [Rs.add_usize_nat _ _ (show idx + k < 18446744073709551616 by omega), Ctl.ofRes_ok', Ctl.val_bind', setIndex_nat,
     if_pos h, Ctl.pure_eq', Rs.loopStep_val']
 
 /-- one iteration of the item loop of `build_array` -/
 theorem ba_loop1_step (value data buf : Bytes) (len : Nat) (hlen : value.length < 9223372036854775808) :
-    Tr.build_array.loop1 value (data, ((len : Nat) : Int), buf) =
+    Tr.build_array_into.loop1 value (data, ((len : Nat) : Int), buf) =
       match Fn.partOf value with
       | .ok (w, d) =>
         if len + 1 < 4294967296 then Ctl.val (.next (data ++ d, ((len + 1 : Nat) : Int), buf ++ w))
@@ -54,7 +57,7 @@ theorem ba_loop1_step (value data buf : Bytes) (len : Nat) (hlen : value.length 
       | .err e => Ctl.ret (.err e)
       | .panic s => Ctl.ret (.panic s)
       | .fuel => Ctl.ret .fuel := by
-  unfold Tr.build_array.loop1 Fn.partOf
+  unfold Tr.build_array_into.loop1 Fn.partOf
   dsimp only
   rw [read_u32_zero]
   cases hr : readU32At value 0 with
@@ -123,7 +126,7 @@ theorem partOf_word_length (value w d : Bytes) (h : Fn.partOf value = .ok (w, d)
 /-- the item loop is the model's `partsOf` -/
 theorem ba_loop1_run : ∀ (items : List Bytes) (data buf : Bytes) (len : Nat),
     (∀ v ∈ items, v.length < 9223372036854775808) → len + items.length < 4294967296 →
-    (Rs.forIn items (data, ((len : Nat) : Int), buf) Tr.build_array.loop1 : Ctl Bytes (Bytes × Int × Bytes)) =
+    (Rs.forIn items (data, ((len : Nat) : Int), buf) Tr.build_array_into.loop1 : Ctl Bytes (Bytes × Int × Bytes)) =
       match Fn.partsOf items with
       | .ok (ws, ds) => Ctl.val (data ++ ds, ((len + items.length : Nat) : Int), buf ++ ws)
       | .err e => Ctl.ret (.err e)
@@ -183,12 +186,12 @@ theorem partsOf_words_length : ∀ (items : List Bytes) (ws ds : Bytes), Fn.part
     | panic s => rw [hp] at h; cases h
     | fuel => rw [hp] at h; cases h
 
-/-- **`build_array`** (for a list of byte slices) is the model's `buildArray` -/
-theorem build_array_agrees (items : List Bytes) (buf : Bytes)
+/-- the body of `build_array` (the private `build_array_into`, for a list of byte slices) is the model's `buildArray` -/
+theorem build_array_into_agrees (items : List Bytes) (buf : Bytes)
     (hn : items.length < 4294967296) (hb : buf.length < 4611686018427387904)
     (hi : ∀ v ∈ items, v.length < 9223372036854775808) :
-    Tr.build_array items buf = Fn.buildArray items buf := by
-  unfold Tr.build_array Fn.buildArray
+    Tr.build_array_into items buf = Fn.buildArray items buf := by
+  unfold Tr.build_array_into Fn.buildArray
   have h4 : ((4 : Nat) : Int) = 4 := rfl
   have h0 : ((0 : Nat) : Int) = 0 := rfl
   simp only [Rs.len, ← h4, Rs.add_usize_nat buf.length 4 (by omega), Ctl.ofRes_ok', Ctl.val_bind',
@@ -205,7 +208,7 @@ theorem build_array_agrees (items : List Bytes) (buf : Bytes)
     have hmod : items.length % 4294967296 = items.length := Nat.mod_eq_of_lt hn
     simp only [Ctl.val_bind', Nat.zero_add, Rs.bitor_natCast, Nat.or_comm items.length C.ARRAY_CONTAINER_TAG, Rs.toBeBytes_u32_nat _ hw, Rs.enumerate, List.nil_append, hmod]
     have hwl := partsOf_words_length items ws ds hp
-    have hrun := patch_run (ρ := Bytes) buf.length (Tr.build_array.loop2 (buf.length : Int))
+    have hrun := patch_run (ρ := Bytes) buf.length (Tr.build_array_into.loop2 (buf.length : Int))
       (fun k b bf h hl => ba_loop2_step buf.length k b bf h hl) (beN 4 (C.ARRAY_CONTAINER_TAG ||| items.length)) 0
       (buf ++ zeros 4 ++ ws) (by simp [zeros, beN]) (by simp [zeros]; omega)
     rw [hrun]
@@ -213,5 +216,18 @@ theorem build_array_agrees (items : List Bytes) (buf : Bytes)
     simp only [Nat.add_zero, List.append_assoc] at hmid ⊢
     rw [hmid]
     simp only [Ctl.val_bind', Rs.extendFromSlice, Ctl.run_ret', u32be, List.append_assoc]
+
+/-- the public `build_array` — `let start = buf.len(); let res = build_array_into(items, buf); if res.is_err() {
+buf.truncate(start); } res` — is translated as the outcome of `build_array_into` (the buffer is carried by `.ok` only) -/
+theorem build_array_eq_into (items : List Bytes) (buf : Bytes) :
+    Tr.build_array items buf = Tr.build_array_into items buf := rfl
+
+/-- **`build_array`** (for a list of byte slices) is the model's `buildArray` -/
+theorem build_array_agrees (items : List Bytes) (buf : Bytes)
+    (hn : items.length < 4294967296) (hb : buf.length < 4611686018427387904)
+    (hi : ∀ v ∈ items, v.length < 9223372036854775808) :
+    Tr.build_array items buf = Fn.buildArray items buf := by
+  rw [build_array_eq_into]
+  exact build_array_into_agrees items buf hn hb hi
 
 end Jsonb.TrAgree
